@@ -15,10 +15,14 @@ def marker(tag):
     return 'doc = "%s"' % tag
 
 
-def build(where, kinds, handlers, args, double_kind=None):
-    """A contract / interface with markers on the given kinds (msg_attr), handlers (sv::attr) and arguments."""
+def build(where, kinds, handlers, args, double_kind=None, only_exec=False):
+    """A contract / interface with markers on the given kinds (msg_attr), handlers (sv::attr) and arguments.
+    sv::attr is written *above* sv::msg for h1 and s0 and below it for the others; with only_exec the
+    query and sudo kinds have no handler at all (their message types are empty but still exist)."""
     ms = []
     for (k, n) in HANDLERS:
+        if only_exec and k != "exec":
+            continue
         a = []
         for an in ("a", "b"):
             attrs = ('#[%s]' % marker("A_%s_%s" % (n, an)),) if (n, an) in args else ()
@@ -26,7 +30,10 @@ def build(where, kinds, handlers, args, double_kind=None):
         sv = ('#[sv::attr(%s)]' % marker("V_" + n),) if n in handlers else ()
         if n in handlers and n == "h0" and double_kind:
             sv = sv + ('#[sv::attr(%s)]' % marker("V2_" + n),)
-        ms.append(Method(k, n, tuple(a), sv_attrs=sv))
+        if n in ("h1", "s0"):
+            ms.append(Method(k, n, tuple(a), attrs=sv))
+        else:
+            ms.append(Method(k, n, tuple(a), sv_attrs=sv))
     mattrs = []
     for k in KINDS6:
         if k in kinds:
@@ -68,7 +75,7 @@ def variant_of(items, tname, index):
     return None
 
 
-def expected_locations(where, kinds, handlers, args, items, double_kind):
+def expected_locations(where, kinds, handlers, args, items, double_kind, only_exec=False):
     pre = "" if where == "contract" else "If"
     exp = {}
     for k in kinds:
@@ -81,6 +88,8 @@ def expected_locations(where, kinds, handlers, args, items, double_kind):
             exp["M2_" + k] = ["%s:/sv/%s" % (kind_word, tn)]
     per_kind_index = {}
     for (k, n) in HANDLERS:
+        if only_exec and k != "exec":
+            continue
         idx = per_kind_index.get(k, 0)
         per_kind_index[k] = idx + 1
         tn = pre + model.MSG_NAME[k]
@@ -115,13 +124,21 @@ def configs(tier):
                 yield (k, h, tuple(ARGS), None)
     for dk in KINDS6[:5]:
         yield ((dk, "exec"), ("h0",), (), dk)
+    # kinds without any handler still get their forwarded attributes
+    for k in ks:
+        yield (k, ("h0", "h1"), (("h0", "a"),), "only_exec")
 
 
 def run_e1(res, tier):
     recs, meta = [], {}
     for (kinds, handlers, args, dk) in configs(tier):
         for where in ("contract", "interface"):
-            obj = build(where, kinds, handlers, args, dk)
+            only_exec = dk == "only_exec"
+            if only_exec:
+                dk = None
+            obj = build(where, kinds, handlers, args, dk, only_exec)
+            if only_exec:
+                dk = "only_exec"
             pid = "%s:%s:%s:%s:%s" % (where[:2], "+".join(kinds), "+".join(handlers), "+".join("%s.%s" % x for x in args), dk)
             r = (model.e1_contract_record if where == "contract" else model.e1_interface_record)(pid, obj, want="items,mt")
             if pid in meta:
@@ -140,7 +157,7 @@ def run_e1(res, tier):
         locs = []
         collect(o.get("items", []), "", locs)
         _, items = model.sv_items(o)
-        exp = expected_locations(where, kinds, handlers, args, items, dk)
+        exp = expected_locations(where, kinds, handlers, args, items, None if dk == "only_exec" else dk, dk == "only_exec")
         found = {}
         order = {}
         for path, attrs in locs:
@@ -181,7 +198,8 @@ def e2_programs(tier):
             for (k, n) in HANDLERS + [("exec", "h1x")][:0]:
                 args = tuple(Arg(an, "u32", ("#[serde(default)]",) if (n, an) in defs else ()) for an in ("a", "b"))
                 sv = ('#[sv::attr(serde(alias = "al_%s"))]' % n,) if n in aliases else ()
-                ms.append(Method(k, n, args, sv_attrs=sv))
+                # written above sv::msg for h1 / q0, below it for the others
+                ms.append(Method(k, n, args, attrs=sv) if n in ("h1", "q0") else Method(k, n, args, sv_attrs=sv))
             mattrs = tuple("%s, derive(PartialOrd)" % k for k in ords if not (where == "interface" and k in ("instantiate", "migrate")))
             if where == "contract":
                 c = Contract(methods=tuple([Method("instantiate", "inst", (Arg("a", "u32"),)), Method("migrate", "mig", (Arg("a", "u32"),))] + ms),
